@@ -52,6 +52,20 @@ func checkC14(ctx *Ctx, r *Report, tier string) {
 			fns = append(fns, f)
 		}
 	}
+	// second entry point: obj.ImportSTL hands the loaded list on to the mesh importer, whose own
+	// indexing of the list (the first triangle seeds the bounding box) must be total as well
+	if imp := ctx.ssaFunc("obj", "ImportSTL"); imp != nil {
+		n := 0
+		for f := range reachFrom(e, []*ssa.Function{imp}, false) {
+			if inModule(f) && f.Pkg != nil && strings.HasSuffix(f.Pkg.Pkg.Path(), "/obj") && !scope[f] {
+				fns = append(fns, f)
+				n++
+			}
+		}
+		r.Counts["importer_functions"] = n
+	} else {
+		r.undecided("L1", "obj.ImportSTL", 0, "second entry point not found")
+	}
 	for _, name := range []string{"verifCtlLoadAsciiNoGuard", "verifCtlLoadBinaryUnguarded"} {
 		if cf := ctx.ssaFunc("render", name); cf != nil {
 			fns = append(fns, cf)
@@ -189,6 +203,10 @@ func (lc *lenChecker) minLen(x ssa.Value, at *ssa.BasicBlock, depth int) int64 {
 			up(k)
 		case token.GTR:
 			up(k + 1)
+		case token.NEQ:
+			if k == 0 {
+				up(1) // a length is never negative: len != 0 is len >= 1
+			}
 		}
 	}
 	switch v := x.(type) {
